@@ -19,6 +19,7 @@ PLANAR_BOX = 50.0  # |w.u| above which float32 softplus in the planar projection
 PLANAR_WU_MIN = -10.0  # below this the margin softplus(w.u) ~ e^(w.u) approaches float32 resolution next to 1
 RAW_BOX = 50.0  # the property's raw-parameter box
 HUGE_LOSS = 1e12  # |batch loss| above which float32 gradient overflow (not NaN branches) is the expected outcome
+EXPLODED_PARAM = 1e3  # a trainable leaf beyond this magnitude: training has diverged (far outside any bounded raw-parameter box)
 
 
 def _crashed(result):
@@ -575,12 +576,26 @@ def _after_positive_teleport(world, result):
     """Labels of the states that directly follow an all-positive teleport."""
     out = set()
     steps = result["steps"]
+
+    def all_positive(leaves):
+        # the fault sets p + (target - p) with target in [0.25, 1]; when |p| is astronomically large (after an
+        # injected x1e6 gradient) that sum is not the target in float32, so the state is verified, not assumed
+        return all(bool(np.all((np.asarray(a) >= 0.25) & (np.asarray(a) <= 1.0))) for a in leaves if np.asarray(a).size)
+
     for i, st in enumerate(steps):
         if st["fault"] == E.F_TELEPORT_POS:
             if i + 1 < len(steps):
-                out.add(f"step{i + 1}")
-            elif not world.get("return_best"):
-                out.add("returned")
+                if all_positive(steps[i + 1]["params"]):
+                    out.add(f"step{i + 1}")
+            elif not world.get("return_best") and result.get("ret_model") is not None:
+                import equinox as eqx
+                import jax
+                from flowjax.wrappers import NonTrainable
+
+                tr = eqx.filter(result["ret_model"], eqx.is_inexact_array, is_leaf=lambda n: isinstance(n, NonTrainable))
+                leaves = [a for a in jax.tree_util.tree_leaves(tr, is_leaf=lambda n: isinstance(n, NonTrainable)) if not isinstance(a, NonTrainable)]
+                if all_positive(leaves):
+                    out.add("returned")
     return out
 
 
@@ -922,14 +937,22 @@ def oracle_c18(world, result):
             pairs.append((hist[j - 1][1], i))
     grad_loss_idx = {li for li, _ in pairs}
     n_poison_checked = 0
+    opt_state_clean = True  # no earlier step handed non-finite gradients to the (possibly stateful) optimiser
     for li, ui in pairs:
         s = steps[ui]
         loss = le[li]["value"]
         p_fin = E.leaves_finite(s["params"])
         g_fin = E.leaves_finite(s["grads"])
+        was_clean, opt_state_clean = opt_state_clean, opt_state_clean and g_fin
         if p_fin and np.isnan(loss):
             V.append({"clause": "c18.loss_nan", "detail": f"step {s['t']}: parameters finite but the batch loss is NaN (fault row in batch: {le[li]['has_fault_row']})"})
             break
+        exploded = any(a.size and float(np.max(np.abs(a))) > EXPLODED_PARAM for a in s["params"])
+        if p_fin and np.isfinite(loss) and abs(loss) > HUGE_LOSS and exploded:
+            # training has already diverged (a parameter beyond 1e3 in magnitude) and the loss is astronomically
+            # large: NaN gradients here are float32 overflow (inf - inf), not the unselected-branch NaNs of the property
+            P["vacuous_huge_loss_exploded_params"] = P.get("vacuous_huge_loss_exploded_params", 0) + 1
+            continue
         if p_fin and np.isfinite(loss) and abs(loss) > HUGE_LOSS and not any(np.any(np.isnan(g)) for g in s["grads"]):
             # astronomically large but finite loss whose gradient leaves are finite or +-inf: the true
             # gradient may simply exceed float32 range; overflow is not the branch-selection defect the
@@ -945,7 +968,9 @@ def oracle_c18(world, result):
                 V.append({"clause": "c18.finite_loss_nonfinite_grad", "detail": f"step {s['t']}: batch loss {loss} is finite but {len(bad)}/{len(s['grads'])} gradient leaves are non-finite (fault row in batch: {le[li]['has_fault_row']}; rows: {result.get('fault_rows')})"})
                 break
             # the step after a finite-loss, finite-gradient step starts from finite parameters
-            if ui + 1 < len(steps) and not s["fault"] and not E.leaves_finite(steps[ui + 1]["params"]):
+            # (only when every earlier step also had finite gradients: a stateful optimiser that was fed NaN
+            # gradients by an earlier infinite-loss batch may legitimately emit NaN updates from then on)
+            if ui + 1 < len(steps) and not s["fault"] and was_clean and not E.leaves_finite(steps[ui + 1]["params"]):
                 V.append({"clause": "c18.step_poisoned", "detail": f"step {s['t']}: finite parameters, finite loss {loss}, finite gradients, yet the next parameters are non-finite"})
                 break
         if p_fin and np.isposinf(loss):
